@@ -254,3 +254,42 @@ Proof.
   assert (N.of_nat (length c) <=? 0 = false) as ->. { destruct c; [congruence|cbn [length]; lia]. }
   eexists. split; [reflexivity|]. cbn [f_closed f_os f_x os_plan os_rest]. repeat split; auto.
 Qed.
+
+(* ------------------------------------------------------------------------------------------------ consistency with the fault-free model *)
+(* when the operating system accepts everything, the model under faults IS the fault-free model: every call returns normally with the
+   count [xstep] returns, the exporter state is [xstep]'s, nothing is flagged *)
+Theorem fstep_healthy s o : healthy (f_os s) ->
+  exists cur' closed', fstep s o = (mkFx (fst (xstep (f_x s) o)) (f_os s) cur' (match o with XRot _ => false | _ => f_threw s end) closed', Done, snd (xstep (f_x s) o)).
+Proof.
+  intros Hh. unfold fstep. destruct o as [gr st|ga st|gm st| |e|bp|i];
+    try (destruct (xstep (f_x s) _) as [x' r] eqn:E; cbv zeta; rewrite (feed_healthy _ _ _ _ Hh); eexists _, _; reflexivity).
+  cbv zeta. rewrite (feed_healthy _ _ _ _ Hh), (feed_healthy _ _ _ _ Hh). cbn [xstep]. eexists _, _. reflexivity.
+Qed.
+
+(* what a descriptor holds under a healthy operating system is what the encoder handed over: [d_ok] *)
+Definition d_ok (x : exporter) (cur : dout) : Prop := d_stored cur = handed (x_enc x) /\ d_intended cur = handed (x_enc x).
+
+Theorem fstep_healthy_outputs s o : healthy (f_os s) -> d_ok (f_x s) (f_cur s) ->
+  let s' := fst (fst (fstep s o)) in
+  d_ok (f_x s') (f_cur s') /\
+  map (fun ot => d_stored (fst ot)) (f_closed s') =
+    firstn (length (x_closed (f_x s')) - length (x_closed (f_x s))) (x_closed (f_x s')) ++ map (fun ot => d_stored (fst ot)) (f_closed s).
+Proof.
+  intros Hh [Hs Hi]. unfold fstep.
+  assert (Hnr : forall x' r, (forall e, o <> XRot e) -> xstep (f_x s) o = (x', r) ->
+     d_ok x' (mkDout (d_stored (f_cur s) ++ concat (new_chunks (x_enc (f_x s)) (x_enc x'))) (d_intended (f_cur s) ++ concat (new_chunks (x_enc (f_x s)) (x_enc x')))) /\
+     x_closed x' = x_closed (f_x s)).
+  { intros x' r Hn E. destruct (nonrot_step (f_x s) o Hn) as [Hc Hcl]. rewrite E in Hc, Hcl. cbn [fst] in *.
+    split; [|exact Hcl]. unfold d_ok. cbn [d_stored d_intended]. rewrite Hs, Hi, <- (new_chunks_spec _ _ Hc). split; reflexivity. }
+  destruct o as [gr st|ga st|gm st| |e|bp|i];
+    try (destruct (xstep (f_x s) _) as [x' r] eqn:E; cbv zeta; rewrite (feed_healthy _ _ _ _ Hh); cbn [fst f_x f_cur f_closed];
+         destruct (Hnr x' r) as [Hd Hcl]; [intros e0; discriminate|reflexivity|]; split; [exact Hd|rewrite Hcl, Nat.sub_diag; reflexivity]).
+  cbv zeta. rewrite (feed_healthy _ _ _ _ Hh), (feed_healthy _ _ _ _ Hh). cbn [fst f_x f_cur f_closed map].
+  destruct (rotate_closed e (f_x s)) as [Hcl He]. split.
+  - unfold d_ok. rewrite He. split; reflexivity.
+  - rewrite Hcl. cbn [length]. replace (S (length (x_closed (f_x s))) - length (x_closed (f_x s)))%nat with 1%nat by lia. cbn [firstn app]. f_equal.
+    cbn [d_stored fst]. rewrite Hs, <- app_assoc, <- concat_app.
+    set (x1 := fst (if e then write_block (f_x s) else (f_x s, 0))).
+    assert (Hc1 : cext (x_enc (f_x s)) (x_enc x1)). { unfold x1. destruct e; [apply cext_write_block|apply cext_refl]. }
+    rewrite concat_app, app_assoc, <- (new_chunks_spec _ _ Hc1), <- (new_chunks_spec _ _ (cext_closing x1)). reflexivity.
+Qed.
